@@ -32,6 +32,7 @@ UNITS.append(("datagen", __import__("translator.datagen", fromlist=["datagen"]).
 UNITS.append(("frames", __import__("translator.frames", fromlist=["frames"]).frames, "GemVerif/Gen/Frames.lean"))  # C12
 UNITS.append(("forwarding", __import__("translator.forwarding", fromlist=["forwarding"]).forwarding, "GemVerif/Gen/Forwarding.lean"))  # C11
 UNITS.append(("constraints", __import__("translator.constraints", fromlist=["constraints"]).constraints, "GemVerif/Gen/Constraints.lean"))  # C16
+UNITS.append(("nets", __import__("translator.nets", fromlist=["nets"]).nets, "GemVerif/Gen/Nets.lean"))  # C03 (C03Gen)
 
 if __name__ == "__main__":
     main()
